@@ -341,6 +341,25 @@ def canaries(chk, prog):
 
 
 def run(chk, prog, tier):
+    # the two arms of the closed-form converters take their degenerate shortcut on the same band of rotations
+    from props.c02 import gate_bands
+    bands = gate_bands(chk, prog, pid="C07", limit_pi=float("inf"), limit_0=float("inf"))
+    for name in ("hughes", "chiaverini"):
+        a, b = sorted(bands.get((name, "3x3"), [])), sorted(bands.get((name, "Nx3x3"), []))
+        ok = len(a) == len(b) and all(x[0] == y[0] and (x[1] == y[1] or (min(x[1], y[1]) > 0 and max(x[1], y[1]) / min(x[1], y[1]) < 2.0)) for x, y in zip(a, b))
+        site = "ahrs/common/orientation.py::%s::gate bands" % name
+        if ok:
+            chk.record("TWIN.band", site, "3x3 and Nx3x3 arms gate their limit shortcuts on the same angle bands: %s" % (a,))
+        else:
+            why = "the 3x3 arm takes its limit shortcuts on the bands %s (limit, width in rad) but the Nx3x3 arm on %s: rows inside one band and outside the other are converted by different formulas" % (a, b)
+            chk.record("TWIN.band", site, "both arms gate on the same bands", verdict="VIOLATION", detail=why)
+            chk.finding("TWIN.band", "ahrs/common/orientation.py", name, "tolerance gates of the two arms", why, line=prog.func("ahrs/common/orientation.py::" + name).node.lineno)
+    from sa import lints as _lints
+    _lints.domain_guard(chk, prog, refs=['ahrs/common/orientation.py::chiaverini', 'ahrs/filters/tilt.py::Tilt._compute_all', 'ahrs/filters/tilt.py::Tilt.estimate'])
+    from sa import lints
+    mm = prog.module("ahrs/utils/metrics.py")
+    lints.no_sign_zero(chk, prog, list(mm.funcs.values()), "for two quaternions with exactly zero inner product (rotations a half-turn apart) the antipode selection "
+                       "by np.sign(<q1,q2>) zeroes one operand; min(|q1-q2|, |q1+q2|) has no such hole")
     class_twins(chk, prog)
     dcm2quat_twins(chk, prog)
     estimator_twins(chk, prog)
